@@ -15,6 +15,7 @@ def main():
     ap.add_argument("--replay", default=None)
     a = ap.parse_args()
     seed = int(os.environ.get("VERIF_SEED", "0"))
+    C.TIER = a.tier
     try:
         if a.prop in ("C01", "C02", "C03", "C17", "C18", "C13"):
             import suite_mgr
